@@ -154,6 +154,23 @@ def putL : Nat → LHeap → Nat → Key → Option Data → Nat → Option (LHe
                   { ch with key := ch.key.take j, dye := dye, terminal := false, kids := tk }])
                 cur i (lh.length + 2) dye
 
+def mapRes {α β : Type} (f : α → β) : Res α → Res β
+  | .ok a => .ok (f a)
+  | .panic => .panic
+  | .stuck => .stuck
+
+/-- what a lookup observes of the node it finds -/
+structure Ent where
+  dye : Nat
+  terminal : Bool
+  data : Option Data
+  deriving DecidableEq, Repr
+
+def LN.ent (n : LN) : Ent := ⟨n.dye, n.terminal, n.data⟩
+
+def findE (f : Nat) (lh : LHeap) (id : Nat) (s : Key) : Res (Option Ent) :=
+  mapRes (Option.map LN.ent) (findL f lh id s)
+
 def putTopL (lh : LHeap) (root : Nat) (key : Key) (data : Option Data) (dye : Nat) : Option (LHeap × Nat) :=
   match putL (key.length + 1) lh root key data dye with
   | none => none
